@@ -1,4 +1,5 @@
 """C18 — angles convert, wrap and change coordinates consistently."""
+import json
 import os
 
 import vf
@@ -14,6 +15,22 @@ def run(tier):
     cases = os.path.join(d, "cases.ndjson")
     vf.run_harness(binpath, ["angle", "gen", "--seed", vf.seed(), "--tier", tier], stdout_path=cases)
     vf.exec_and_validate(chk, binpath, "angle", "TV_Angle", cases, jvms=8, what="observation")
+    # Angle::wrap under the other float backends (libm - whose rem_euclid is the built-in fallback's - and micromath; Angle needs one of them):
+    # wrap goes through the backend's rem_euclid, so each feature build is bound separately
+    probe = os.path.join(vf.HARNESS, "floatprobe")
+    wraps = os.path.join(d, "wrap_backends.ndjson")
+    with open(wraps, "w") as fw:
+        for name, feats in (("libm", ["libm"]), ("mm", ["mm"])):
+            vf._built.pop(("release", probe, tuple(feats)), None)
+            pb = vf.build_harness("release", crate=probe, features=feats, bin_name="floatprobe")
+            fw.write(vf.run_harness(pb, [name, vf.seed(), "anglewrap" if tier == "quick" else "anglewrap-thorough"]))
+    nrec, nev, badw = vf.validate_trace("TV_Angle", wraps, jvms=6)
+    vf.log("[tv] wrap under the libm / mm backends: %d calls judged by TV_Angle: %d rejected" % (nrec, len(badw)))
+    chk.cov["traces_validated_against_impl"] += nrec
+    chk.cov["evaluations"] += nev
+    for b in badw:
+        chk.violation(b["key"], {"sub": "floatprobe-anglewrap", "record": b["record"]},
+                      what="wrap call %s rejected by TV_Angle: %s" % (b["key"], json.dumps(b["record"])[:300]))
     chk.cov["distinct_nontrivial"] = chk.cov["traces_validated_against_impl"]
     chk.cov["rule"] = ("seeded sweeps: unit conversions over many revolutions (exact fractions of a turn and random), wrap of "
                        "angles over +-20 revolutions into 8 intervals (incl. exact multiples of the period and values one to "
@@ -24,3 +41,11 @@ def run(tier):
                                "std atan2 to name Pythagorean angles"]
     chk.assumptions = ["tolerances 1e-3 relative (std backend in the harness build)", "absolute trig accuracy is C20's subject"]
     return chk.finish()
+
+
+def replay(path):
+    obj = json.load(open(path))
+    if obj.get("sub") == "floatprobe-anglewrap":
+        # the "case" is a feature build of the probe: re-run the whole quick check
+        return run("quick")
+    return vf.replay("C18", path)
